@@ -24,7 +24,7 @@ def run(tier):
     fut = pool.submit(engine.run_engine, tier, 0, True)
     # down files / Reversible flag through the formatters (observations of the C07 corpus, formulas DownStatementsDiffer / ReversibleFlag)
     b = vf.build_harness("core", "roundtrip")
-    r = vf.tlc("LexerContents", "LexerContents.cfg", defines={"NQ": 1}, keep=True, timeout=600)
+    r = vf.tlc("LexerContents", "LexerContents.cfg", defines={"NQ": 1, "QQ": 0}, keep=True, timeout=600)
     d = vf.scratch("c17")
     try:
         trace = os.path.join(d, "t.ndjson")
@@ -32,7 +32,7 @@ def run(tier):
                            env=dict(os.environ, VERIF_SCRATCH=d), timeout=3000)
         if p.returncode != 0:
             raise vf.Infra("roundtrip failed: " + p.stderr[-2000:])
-        fviols, fevents, _ = vf.monitor_trace("PlanFileTrace", "PlanFileTrace.cfg", trace)
+        fviols, fevents, _ = vf.monitor_trace("PlanFileTrace", "PlanFileTrace.cfg", trace, independent=True)
         fulls = open(trace + ".full").read().split("\n") if fviols else []
         for oid, name in fviols:
             if name not in ("DownStatementsDiffer", "ReversibleFlag"):
